@@ -1,1 +1,170 @@
-fn main(){}
+//! fstmiri: the part of C20 that runs under Miri (`cargo +nightly miri run --bin fstmiri -- shard nshards seed tier`).
+//! Prints one line `MIRI-SHARD ...`; undefined behaviour makes Miri abort with a diagnostic instead.
+#[path = "rng.rs"]
+mod rng;
+#[path = "untrusted.rs"]
+mod untrusted;
+
+use fst::automaton::{Automaton, Levenshtein, Str, Subsequence};
+use fst::raw::{Builder, Fst, OpBuilder};
+use fst::{IntoStreamer, Map, Set, Streamer};
+use rng::Rng;
+use std::panic::{catch_unwind, AssertUnwindSafe};
+
+/// bounded traversal of possibly malformed data: a panic is allowed, undefined behaviour is not
+fn traverse(img: &[u8], ops: &mut u64, panics: &mut u64) {
+    let r = catch_unwind(AssertUnwindSafe(|| {
+        let mut n = 0u64;
+        if let Ok(f) = Fst::new(img) {
+            let mut s = f.stream();
+            let mut c = 0;
+            while let Some(_) = s.next() {
+                c += 1;
+                if c >= 200 {
+                    break;
+                }
+            }
+            n += 1;
+            for k in [&b""[..], b"a", b"ab", b"w\x05", b"te", b"\xff"].iter() {
+                let _ = f.get(k);
+                let _ = f.contains_key(k);
+                n += 2;
+            }
+            let mut s = f.range().ge("a").lt("x").into_stream();
+            let mut c = 0;
+            while let Some(_) = s.next() {
+                c += 1;
+                if c >= 50 {
+                    break;
+                }
+            }
+            n += 1;
+            let mut s = f.search(Subsequence::new("a")).into_stream();
+            let mut c = 0;
+            while let Some(_) = s.next() {
+                c += 1;
+                if c >= 50 {
+                    break;
+                }
+            }
+            n += 1;
+            let _ = f.get_key(3);
+            n += 1;
+            let mut u = OpBuilder::new().add(&f).add(f.range().gt("a")).union();
+            let mut c = 0;
+            while let Some(_) = u.next() {
+                c += 1;
+                if c >= 50 {
+                    break;
+                }
+            }
+            n += 1;
+        }
+        n
+    }));
+    match r {
+        Ok(n) => *ops += n,
+        Err(_) => {
+            *panics += 1;
+            *ops += 1;
+        }
+    }
+}
+
+/// a miniature of every public operation kind on valid inputs
+fn valid_ops(rng: &mut Rng, ops: &mut u64, with_lev: bool, default_cache: bool) {
+    let mut keys: Vec<Vec<u8>> = (0..12)
+        .map(|_| {
+            let l = rng.usize(4);
+            rng.bytes(l, b"ab\xc3\xa9")
+        })
+        .collect();
+    keys.push("é".as_bytes().to_vec());
+    keys.sort();
+    keys.dedup();
+    let mut b = if default_cache { Builder::memory() } else { Builder::verif_new_with_cache(Vec::new(), 0, 16, 2).unwrap() };
+    for (i, k) in keys.iter().enumerate() {
+        b.insert(k, i as u64 * 1000 + 1).unwrap();
+    }
+    let bytes = b.into_inner().unwrap();
+    let f = Fst::new(&bytes[..]).unwrap();
+    assert!(f.verify().is_ok());
+    let got = f.stream().into_byte_vec();
+    assert_eq!(got.len(), keys.len());
+    for (i, k) in keys.iter().enumerate() {
+        assert_eq!(f.get(k).map(|o| o.value()), Some(i as u64 * 1000 + 1));
+        assert_eq!(f.get_key(i as u64 * 1000 + 1).as_ref(), Some(k));
+    }
+    let m = Map::new(bytes.clone()).unwrap();
+    let s = Set::new(bytes.clone()).unwrap();
+    let _ = m.range().ge("a").le("b").into_stream().into_byte_vec();
+    let _ = m.search(Str::new("ab").starts_with().union(Subsequence::new("b")).complement()).into_stream().into_byte_vec();
+    if !with_lev {
+        *ops += 18 + 3 * keys.len() as u64;
+    } else if let Ok(lev) = Levenshtein::new("aé", 1) {
+        let _ = s.search(&lev).into_stream().into_bytes();
+        let _ = m.search_with_state(&lev).into_stream().next();
+    }
+    let mut u = m.op().add(&m).add(m.range().gt("a")).intersection();
+    while let Some(_) = u.next() {}
+    let mut d = s.op().add(s.range().lt("b")).symmetric_difference();
+    while let Some(_) = d.next() {}
+    assert!(s.is_subset(&s) && !s.is_disjoint(&s) || s.is_empty());
+    *ops += 20 + 3 * keys.len() as u64;
+}
+
+fn main() {
+    let a: Vec<String> = std::env::args().collect();
+    let shard: usize = a.get(1).and_then(|s| s.parse().ok()).unwrap_or(0);
+    let nshards: usize = a.get(2).and_then(|s| s.parse().ok()).unwrap_or(1).max(1);
+    let seed: u64 = a.get(3).and_then(|s| s.parse().ok()).unwrap_or(1);
+    let tier = a.get(4).cloned().unwrap_or_else(|| "quick".into());
+    let mut st = untrusted::Stats::default();
+    let mut ops = 0u64;
+    let mut trav_panics = 0u64;
+    if tier == "probe" {
+        untrusted::gate(&[3, 0, 0, 0, 0, 0, 0, 0], &mut st);
+        println!("MIRI-SHARD probe ops=1 gate_panics={}", st.panics);
+        return;
+    }
+    let thorough = tier == "thorough";
+    let mut rng = Rng::new(seed, 0x3141 + shard as u64);
+    // boundary images (a different slice of the sweep in every shard and for every seed)
+    let nb = if thorough { 3000 } else { 300 };
+    for i in 0..nb {
+        let pick = rng.next() as usize;
+        let l = [0usize, 7, 8, 16, 31, 32, 33, 35, 36, 37, 39, 40, 56, 64][(pick >> 3) % 14];
+        let img = untrusted::boundary_image(l, pick % 7, (pick >> 8) % untrusted::FIELD_VALUES, (pick >> 16) % untrusted::FIELD_VALUES, i, &mut rng);
+        untrusted::gate(&img, &mut st);
+        ops += 1;
+    }
+    // single-byte mutants and truncations of valid FSTs: gate + bounded traversal
+    let fsts = untrusted::valid_fsts(&mut Rng::new(seed, 0xF57), 14, true);
+    let nm = if thorough { 400 } else { 40 };
+    for i in 0..nm {
+        let f = &fsts[(shard + i * nshards) % fsts.len()];
+        let mut img = f.clone();
+        match i % 4 {
+            0 => {}
+            1 => {
+                let cut = rng.usize(img.len() + 1);
+                img.truncate(cut);
+            }
+            _ => {
+                let p = rng.usize(img.len());
+                img[p] ^= 1 << rng.below(8);
+            }
+        }
+        untrusted::gate(&img, &mut st);
+        ops += 1;
+        traverse(&img, &mut ops, &mut trav_panics);
+    }
+    for round in 0..(if thorough { 12 } else { 2 }) {
+        // one build with the default (20000-cell) cache per run is affordable under Miri, the rest use a small one
+        valid_ops(&mut rng, &mut ops, thorough || shard % 4 == 1, shard == 0 && round == 0);
+    }
+    println!(
+        "MIRI-SHARD shard={} ops={} gate_images={} gate_panics={} opened={} traversal_panics_allowed={}",
+        shard, ops, st.images, st.panics, st.opened, trav_panics
+    );
+}
